@@ -510,6 +510,7 @@ class VbsWriter(object):
     """
     def __init__(self, out_file: typing.BinaryIO, blocked: bool = False):
         self.out_file = out_file
+        self.finalised = False
         if blocked:
             self.out_file = Block1014(out_file)
 
@@ -556,6 +557,10 @@ class VbsWriter(object):
 
         :return: None
         """
+        # only finalise once -- a second close (e.g. close() inside a with block) must not touch the file
+        if self.finalised:
+            return
+        self.finalised = True
         # add zero length to end of record
         self.out_file.write(struct.pack(">I", 0))
         self.out_file.seek(0)
